@@ -86,8 +86,10 @@ def pinned(tier):
 
 def gen(rng, tier, k):
     cname = CLASS_NAMES[k % len(CLASS_NAMES)] if rng.random() < 0.8 else rng.choice(CLASS_NAMES)
-    style = rng.choice(["empty", "one", "dups", "grid", "neg_frac", "grid", "many"])
-    n = {"empty": 0, "one": 1}.get(style, rng.choice([2, 3, 5, 8, 14] if style != "many" else [20, 40]))
+    style = rng.choice(["empty", "one", "dups", "grid", "neg_frac", "grid", "many", "large"])
+    # "large": sizes around the powers of two where an implementation would switch to a fast path
+    n = {"empty": 0, "one": 1, "large": rng.choice([63, 64, 65, 128, 130, 300] + ([1000, 1025] if tier == "thorough" else []))}.get(
+        style, rng.choice([2, 3, 5, 8, 14] if style != "many" else [20, 40]))
     offs = []
     t = rng.choice([0.0, 100.0, -1000.0]) if style != "neg_frac" else -rng.uniform(0, 500)
     for _ in range(n):
